@@ -356,7 +356,7 @@ def cases(prop, tier, seed):
   rng3 = random.Random(15485863 * int(seed) + 77)
   for c in out:
     c['requery_seed'] = rng3.randint(0, 2 ** 30)
-  out.extend(_gen_families(rng3, 14 if tier == 'quick' else 280))
+  out.extend(_gen_families(rng3, 14 if tier == 'quick' else 220))
   rng2 = random.Random(7919 * int(seed) + 2020)
   for i in range(420 if tier == 'quick' else 6000):
     out.append(_gen_e2e(rng2, i))
